@@ -410,6 +410,10 @@ class Analyzer:
             if segs[-2:] == ["Interval", "from"] and len(e["args"]) == 1:
                 v = self.ev(e["args"][0], env)
                 return ("iv", v[1], v[1]) if v[0] == "f" else v
+            if segs[-1:] == ["quadrant"] and len(e["args"]) == 1:
+                # an enum classification of a float: any variant (the match over it is explored arm by arm)
+                self.ev(e["args"][0], env)
+                return ("?",)
             raise Unsupported("call %s" % "::".join(segs))
         if k == "Tuple":
             for x in e["elems"]:
@@ -427,6 +431,25 @@ class Analyzer:
             if e.get("e") is not None:
                 self.ev(e["e"], env)
             return ("ret",)
+        if k == "Match":
+            # a match over values outside the float model (enum classifications): every arm whose guard
+            # can hold is explored - an over-approximation of the paths
+            sv = self.ev(e["e"], env)
+            if sv[0] not in ("?", "tuple"):
+                raise Unsupported("match on %s" % sv[0])
+            done = []
+            for arm in e["arms"]:
+                if any(True for _ in A.find(arm["pat"], "PIdent") if not (_.get("name", "")[:1].isupper())):
+                    raise Unsupported("match arm binds a value")
+                if arm.get("guard") is not None:
+                    g = self.ev(arm["guard"], env)
+                    if g[0] != "b":
+                        raise Unsupported("guard")
+                    if True not in g[1]:
+                        continue
+                r = self.ev(arm["body"], dict(env))
+                done.append(r == ("ret",))
+            return ("ret",) if done and all(done) else ("?",)
         raise Unsupported(k)
 
     def site(self, node, s1, s2):
